@@ -166,7 +166,7 @@ def different_zones(ctx, bkind, ylo, yhi, akind="fixed", coarse=False):
 
 
 def cases(tier):
-    win = (1998, 2000) if tier == "quick" else (1601, 2000)
+    win = (1998, 2000) if tier == "quick" else (1901, 2000)
     dw = (1996, 2000) if tier == "quick" else (1601, 2000)
     out = []
     for how in ("forward", "rebuild_op", "rebuild_add", "reversed"):
